@@ -44,7 +44,31 @@ Definition run_scan_hyps (args : list Z) : list Z :=
   | _ => bad_case
   end.
 
+(* 303: the anchor part of findFirstCharDefault.
+   args: text, rtl, anchors, Runtextstart, has BmPrefix?, BmPrefix.IsMatch per position 0..n,
+   mask per position 0..n (1 = report this position) -> (found, Runtextpos) for every reported position.
+   Only used for programs with one of the four anchor bits set, so [rest] is never consulted. *)
+Definition run_ffc_anchor (args : list Z) : list Z :=
+  match (dlet text <- d_zlist ; dlet rtl <- d_bool ; dlet anchors <- d_z ; dlet ts <- d_z ;
+         dlet hasbm <- d_bool ; dlet bmt <- d_zlist ; dlet mask <- d_zlist ;
+         d_ret (text, rtl, anchors, ts, hasbm, bmt, mask)) args with
+  | Some ((text, rtl, anchors, ts, hasbm, bmt, mask), []) =>
+      let bm := if hasbm then Some (fun q => match znth bmt q with Some b => negb (b =? 0) | None => false end)
+                else None in
+      let rest := fun p : Z => (false, -1) in
+      (fix go (ms : list Z) (p : Z) : list Z :=
+         match ms with
+         | [] => []
+         | m :: ms' =>
+             (if m =? 0 then []
+              else let '(f, q) := ffc_default text rtl anchors ts bm rest p in e_bool f ++ [q])
+             ++ go ms' (p + 1)
+         end) mask 0
+  | _ => bad_case
+  end.
+
 Definition run03 (leg : Z) (args : list Z) : list Z :=
   if leg =? 301 then run_scan args
   else if leg =? 302 then run_scan_hyps args
+  else if leg =? 303 then run_ffc_anchor args
   else bad_case.
